@@ -1,6 +1,9 @@
 // C03 — placement only moves movable cells; everything else is untouched,
 // whether the call returns or throws.
+#include <fcntl.h>
+
 #include "gen_circuit.hpp"
+#include "isolate.hpp"
 #include "stages.hpp"
 
 using namespace coloquinte;
@@ -36,8 +39,10 @@ bool prop(Tape &t, Report &R) {
     R.discard("no movable cell");
     return true;
   }
+  bool knownClass = false;
   if (usesGlobal) {
-    // known finding #17 (C06/C07): keep away from the class that ends in UB
+    // known finding #17 (C06/C07): on the unchanged tree this class ends in a
+    // sanitizer abort, so it is run in a forked child (below) instead of here
     std::vector<int> un = unanchoredComponents(s);
     long long far = 0;
     for (auto &r : s.rows) far = std::max<long long>({far, std::llabs((long long)r.minX), std::llabs((long long)r.maxX), std::llabs((long long)r.minY), std::llabs((long long)r.maxY)});
@@ -45,10 +50,7 @@ bool prop(Tape &t, Report &R) {
     for (auto &c : s.cells)
       if (!c.fixed) tot += (double)c.w * c.h;
     double avg = std::sqrt(tot / std::max<size_t>(1, s.cells.size()));
-    if (!un.empty() && (avg <= 0 || far / avg > 1e3)) {
-      R.exclude("c06-unanchored-far-from-origin");
-      return true;
-    }
+    knownClass = !un.empty() && (avg <= 0 || far / avg > 1e3);
   }
   int cbMode = t.weighted({2, 2, 2});  // none, observing, throwing
   int throwAt = t.choose(0, 12);
@@ -56,14 +58,15 @@ bool prop(Tape &t, Report &R) {
   s.labels.insert(cn[cbMode]);
   for (auto &l : s.labels) R.classify(l);
 
+  bool threwAny = false, movedAny = false;
+  bool fixedPin = false;
+  auto judge = [&](Report &R) -> bool {
   Circuit c = s.build();
   Frame before = snap(c);
-  bool fixedPin = false;
   for (auto &n : s.nets)
     for (int cell : n.cells) fixedPin |= s.cells[cell].fixed;
 
   int calls = 0;
-  bool threwAny = false, movedAny = false;
   std::vector<int> stages;
   switch (flow) {
     case 0: stages = {kGlobal}; break;
@@ -100,6 +103,26 @@ bool prop(Tape &t, Report &R) {
     if (post.x != pre.x || post.y != pre.y) movedAny = true;
     if (r.harnessFault) break;
   }
+  return true;
+  };
+  if (knownClass) {
+    std::string why;
+    int rc = runIsolated([&](std::string &w) {
+      Report tmp;
+      tmp.frozen = true;
+      bool ok = judge(tmp);
+      w = tmp.failReason;
+      return ok;
+    }, why);
+    if (rc == 2) {
+      R.exclude("c06-unanchored-far-from-origin(child-aborted)");
+      return true;
+    }
+    R.classify("known-finding-class-survived-in-child");
+    if (rc == 1) return R.fail(why);
+    return true;
+  }
+  if (!judge(R)) return false;
   R.classify(threwAny ? "outcome:some-call-threw" : "outcome:all-returned");
   if ((fixedPin && movedAny) || threwAny)
     R.nontrivial(s.hash() ^ Hasher().add(flow).add(cbMode).add(throwAt).h, [&] { return s.json(16); });
